@@ -85,6 +85,15 @@ def answer (fn : String) (bytes : List UInt8) (a1 a2 : Option Nat) : String :=
       C05.maxErrorCount fuel (IS.ofBytes bytes))
   | "getkeyword" =>
     showLoop (fun r => s!"len={r.len} ") (getKeyword ";( /\\".toUTF8.toList fuel (IS.ofBytes bytes))
+  | "readheader" =>
+    -- header entity keywords of the dictionary are kept out of these inputs: `known` answers false, `rdh` is never called
+    showLoop (fun _ => "") (readHeader (fun _ => false) (fun _ s => .ok ⟨s, 0, 0, 0⟩) C05.skipInstanceSkipsComments C05.readCommentIters
+      C05.findHeaderGetlineN C05.findHeaderExit fuel (IS.ofBytes bytes))
+  | "append1" =>
+    -- pass 1 of `AppendFile` (no file name: the second pass cannot open its stream)
+    showLoop (fun r => s!"cnt={r.len} ") (appendFile1 ⟨fun _ => false, knownC05a, fun _ => false⟩ (fun _ => false)
+      (fun _ s => .ok ⟨s, 0, 0, 0⟩) C05.entNmArrGuard C05.skipInstanceSkipsComments true C05.readCommentIters
+      C05.findHeaderGetlineN C05.findHeaderExit C05.maxErrorCount fuel (IS.ofBytes bytes))
   | "finddata" =>
     showLoop (fun r => s!"found={r.sev} ") (findDataSection C05.skipInstanceSkipsComments C05.readCommentIters fuel (IS.ofBytes bytes))
   | "aggrown" =>
